@@ -156,4 +156,72 @@ theorem at_fraction2_whole (c : Curve α (V2 α)) (f : α) (hb : c.blend = true)
     distance — of the last retained one) is the model's `dedupTolPts`, the first step of `Curve.fromPoints` -/
 theorem from_points_dedup2_eq (pts : List (V2 α)) (tol : α) : GenRs.from_points_dedup2 pts tol = dedupTolPts tol pts := rfl
 theorem from_points_dedup3_eq (pts : List (V3 α)) (tol : α) : GenRs.from_points_dedup3 pts tol = dedupTolPts tol pts := rfl
+
+/-! ### construction: the loop of `from_points` that builds the cumulative lengths is `cumLengths` -/
+
+/-- the 3-D loop (`lengths.push(lengths[i] + d)`), from a state in which `pre` has been processed -/
+theorem lengths_loop3 (r pre : List (V3 α)) (prev : V3 α) (Lpre : List α) (acc : α) (hlen : Lpre.length = pre.length) :
+    List.foldl (fun lengths i =>
+        lengths ++ [lengths.getD i default + vdist ((pre ++ prev :: r).getD (i + 1) default) ((pre ++ prev :: r).getD i default)])
+      (Lpre ++ [acc]) (List.range' pre.length r.length)
+    = Lpre ++ cumLengths.go acc prev r := by
+  induction r generalizing pre prev Lpre acc with
+  | nil => simp [cumLengths.go]
+  | cons b r ih =>
+    rw [show (b :: r).length = r.length + 1 from rfl, List.range'_succ, List.foldl_cons]
+    have h1 : (Lpre ++ [acc]).getD pre.length default = acc := by
+      simp [List.getD_eq_getElem?_getD, ← hlen]
+    have h2 : (pre ++ prev :: b :: r).getD pre.length default = prev := by
+      simp [List.getD_eq_getElem?_getD]
+    have h3 : (pre ++ prev :: b :: r).getD (pre.length + 1) default = b := by
+      simp [List.getD_eq_getElem?_getD, List.getElem?_append_right]
+    rw [h1, h2, h3]
+    have := ih (pre ++ [prev]) b (Lpre ++ [acc]) (acc + vdist b prev) (by simp [hlen])
+    simp only [List.append_assoc, List.cons_append, List.nil_append, List.length_append, List.length_cons, List.length_nil, Nat.zero_add] at this ⊢
+    rw [this]
+    simp [cumLengths.go]
+
+theorem from_points_lengths3_eq (v : List (V3 α)) (hne : v ≠ []) :
+    GenRs.from_points_lengths3 v = cumLengths v := by
+  cases v with
+  | nil => exact absurd rfl hne
+  | cons a r =>
+    unfold GenRs.from_points_lengths3 cumLengths
+    have := lengths_loop3 r [] a [] (0 : α) rfl
+    simp only [List.nil_append, List.length_nil] at this
+    rw [List.range_eq_range']
+    simpa using this
+
+/-- the 2-D loop (`lengths.push(d + lengths.last().unwrap_or(&0.0))`): the same list when addition
+    commutes (it does over ℝ, and bit for bit at Float) -/
+theorem lengths_loop2 (hc : ∀ a b : α, a + b = b + a) (r pre : List (V2 α)) (prev : V2 α) (Lpre : List α) (acc : α) :
+    List.foldl (fun lengths i =>
+        lengths ++ [vdist ((pre ++ prev :: r).getD (i + 1) default) ((pre ++ prev :: r).getD i default) + lengths.getLast?.getD 0])
+      (Lpre ++ [acc]) (List.range' pre.length r.length)
+    = Lpre ++ cumLengths.go acc prev r := by
+  induction r generalizing pre prev Lpre acc with
+  | nil => simp [cumLengths.go]
+  | cons b r ih =>
+    rw [show (b :: r).length = r.length + 1 from rfl, List.range'_succ, List.foldl_cons]
+    have h1 : (Lpre ++ [acc]).getLast?.getD 0 = acc := by simp
+    have h2 : (pre ++ prev :: b :: r).getD pre.length default = prev := by
+      simp [List.getD_eq_getElem?_getD]
+    have h3 : (pre ++ prev :: b :: r).getD (pre.length + 1) default = b := by
+      simp [List.getD_eq_getElem?_getD, List.getElem?_append_right]
+    rw [h1, h2, h3, hc (vdist b prev) acc]
+    have := ih (pre ++ [prev]) b (Lpre ++ [acc]) (acc + vdist b prev)
+    simp only [List.append_assoc, List.cons_append, List.nil_append, List.length_append, List.length_cons, List.length_nil, Nat.zero_add] at this ⊢
+    rw [this]
+    simp [cumLengths.go]
+
+theorem from_points_lengths2_eq (hc : ∀ a b : α, a + b = b + a) (v : List (V2 α)) (hne : v ≠ []) :
+    GenRs.from_points_lengths2 v = cumLengths v := by
+  cases v with
+  | nil => exact absurd rfl hne
+  | cons a r =>
+    unfold GenRs.from_points_lengths2 cumLengths
+    have := lengths_loop2 hc r [] a [] (0 : α)
+    simp only [List.nil_append, List.length_nil] at this
+    rw [List.range_eq_range']
+    simpa using this
 end C01T
